@@ -9,6 +9,7 @@ import (
 	"regexp"
 	"sort"
 	"strings"
+	"time"
 
 	"verif/internal/vc"
 )
@@ -96,7 +97,15 @@ func recordRacePass(c *vc.Ctx) {
 		c.Cap("free-running -race pass not run")
 		return
 	}
-	status, _ := os.ReadFile(filepath.Join(dir, "status"))
+	// the pass runs in the background while the schedules are explored: wait for it (bounded)
+	var status []byte
+	for i := 0; i < 1800; i++ {
+		var err error
+		if status, err = os.ReadFile(filepath.Join(dir, "status")); err == nil && len(status) > 0 {
+			break
+		}
+		time.Sleep(500 * time.Millisecond)
+	}
 	st := strings.TrimSpace(string(status))
 	if !strings.HasPrefix(st, "done ") {
 		c.HarnessError("free-running -race pass did not complete: %q", st)
